@@ -202,9 +202,13 @@ def slices(prop, tier, seed):
         S.append(("S-plan", W.s_plan(pp if th else pp_small, seed,
                                      max_n=3 if th else 2)))
         S.append(("S-cond", W.s_cond(gp, seed, clusters=("1x2",), releases=("two@0",))))
+        # Clockwork keeps queues between invocations: the decision contract (one
+        # decision per request, ...) is judged on every invocation of its runs too
+        S.append(("S-cw", W.s_cw(seed, k_max=2 if not th else 3, full=th)))
         if th:
             S.append(("S-time", W.s_time(gp, seed)))
             S.append(("S-closed", W.s_closed(g, seed)))
+            S.append(("S-cw-hetero", W.s_cw_hetero(seed, k_max=3)))
     elif prop == "C15":
         S.append(("S-cw", W.s_cw(seed, k_max=3, full=th)))
         S.append(("S-cw-hetero", W.s_cw_hetero(seed, k_max=3, full=th)))
